@@ -316,21 +316,44 @@ struct History {
       absorb();
    }
 
+   // Reads that are NOT complete front-to-back scans: one element of each grown container that is not its last one (by position,
+   // through begin(), by name), so that the last thing asked of a container before its next member arrives is an arbitrary read.
+   // What the reads return is judged by the re-observations; here they only happen.
+   void stray_reads()
+   {
+      auto poke = [&](const auto& seq) {
+         const std::size_t n = seq.size(); if (n < 2) return;
+         const std::size_t i = rng.below(n - 1);
+         switch (rng.below(3)) { case 0: (void)&*seq.position(i); break; case 1: (void)&*seq.begin(); break; default: { auto it = seq.begin(); for (std::size_t k = 0; k < i && k < 5; ++k) ++it; (void)&*it; } }
+         C.count("stray_reads_between_additions");
+      };
+      auto by_name = [&](const Scope& sc) {
+         const std::size_t n = sc.size(); if (n < 2) return;
+         const Decl& d = *sc.elements().position(1 + rng.below(n - 1));          // never the first member
+         try { (void)sc[d.name()].is_valid(); C.count("stray_lookups_by_name_between_additions"); } catch (const std::logic_error&) { }
+      };
+      poke(en->members()); poke(cls->bases()); poke(cls->members()); poke(mp->parameters().elements()); poke(blk->body()); poke(blk->handlers()); poke(xl->elements());
+      poke(unit.global_scope()->elements()); poke(ns->scope().elements());
+      by_name(en->region().bindings()); by_name(mp->parameters().region().bindings()); by_name(cls->scope()); by_name(ns->scope());
+      if (cls->bases().size() >= 2) by_name(cls->bases().begin()->home_region().bindings());
+   }
+
    // one step of the history
    void one_step()
    {
       ++step;
       const Lexicon& L = lex;
+      stray_reads();
       const int k = int(rng.below(26));
       switch (k) {
       case 0: S->exprs_unary(); break; case 1: S->exprs_binary(); break; case 2: S->exprs_other(); break; case 3: S->stmts(); break; case 4: S->directives(); break;
       case 5: S->types_and_names(); S->unified_neighbours(); break; case 6: S->decls_and_regions(); break; case 7: S->forms(); break; case 8: S->attributes_captures_units(); break;
-      case 9: { int n = 1 + int(rng.below(40)); for (int i = 0; i < n; ++i) fresh_generative(*en->add_member(rng.chance(15) ? id("e", int(rng.below(3))) : id("e", serial++)), "add_member"); break; }
-      case 10: { int n = 1 + int(rng.below(20)); for (int i = 0; i < n; ++i) { fresh_generative(*cls->declare_field(id("f", serial++), T()), "declare_field"); if (rng.chance(20)) fresh_generative(*cls->declare_base(*un), "declare_base"); } break; }
+      case 9: { int n = 1 + int(rng.below(40)); for (int i = 0; i < n; ++i, rng.chance(40) ? stray_reads() : void()) fresh_generative(*en->add_member(rng.chance(15) ? id("e", int(rng.below(3))) : id("e", serial++)), "add_member"); break; }
+      case 10: { int n = 1 + int(rng.below(20)); for (int i = 0; i < n; ++i, rng.chance(40) ? stray_reads() : void()) { fresh_generative(*cls->declare_field(id("f", serial++), T()), "declare_field"); if (rng.chance(20)) fresh_generative(*cls->declare_base(*un), "declare_base"); } break; }
       case 11: { int n = 1 + int(rng.below(20)); for (int i = 0; i < n; ++i) fresh_generative(*ns->declare_var(id("v", int(rng.below(6))), *tpool[rng.below(3)]), "declare_var"); break; }
-      case 12: { int n = 1 + int(rng.below(20)); for (int i = 0; i < n; ++i) fresh_generative(*mp->param(rng.chance(25) ? lex.get_identifier(u8"") : id("p", serial++), T()), "param"); break; }     // several unnamed parameters
-      case 13: { int n = 1 + int(rng.below(20)); for (int i = 0; i < n; ++i) { auto* s = lex.make_expr_stmt(*lex.make_literal(L.int_type(), widen(std::to_string(serial++)))); fresh_generative(*s, "make_expr_stmt"); blk->add_stmt(*s); } if (rng.chance(40)) fresh_generative(*blk->new_handler(id("h", serial++), T()), "new_handler"); break; }
-      case 14: { int n = 1 + int(rng.below(60)); for (int i = 0; i < n; ++i) { auto* p = lex.make_phantom(); fresh_generative(*p, "make_phantom"); xl->push_back(p); } break; }
+      case 12: { int n = 1 + int(rng.below(20)); for (int i = 0; i < n; ++i, rng.chance(40) ? stray_reads() : void()) fresh_generative(*mp->param(rng.chance(25) ? lex.get_identifier(u8"") : id("p", serial++), T()), "param"); break; }     // several unnamed parameters
+      case 13: { int n = 1 + int(rng.below(20)); for (int i = 0; i < n; ++i, rng.chance(40) ? stray_reads() : void()) { auto* s = lex.make_expr_stmt(*lex.make_literal(L.int_type(), widen(std::to_string(serial++)))); fresh_generative(*s, "make_expr_stmt"); blk->add_stmt(*s); } if (rng.chance(40)) fresh_generative(*blk->new_handler(id("h", serial++), T()), "new_handler"); break; }
+      case 14: { int n = 1 + int(rng.below(60)); for (int i = 0; i < n; ++i, rng.chance(20) ? stray_reads() : void()) { auto* p = lex.make_phantom(); fresh_generative(*p, "make_phantom"); xl->push_back(p); } break; }
       case 15: { int n = 1 + int(rng.below(20)); for (int i = 0; i < n; ++i) { chain = chain->make_subregion(); fresh_generative(*chain, "make_subregion"); fresh_generative(*chain->declare_var(id("c", serial++), T()), "declare_var"); } break; }
       case 16: { // unified tables grow: many rebalancings between a node's creation and its re-observation
          int n = 20 + int(rng.below(200));
@@ -435,7 +458,7 @@ static void body(Ctx& C)
       B->reobserve(true);
       C.count("overlapping_lexicon_pairs"); C.count("reobservations", B->reobservations); C.count("steps", B->step);
    }
-   for (auto k : { "overlapping_lexicon_pairs", "histories", "steps", "reobservations", "shadow_reruns", "generative_results", "nodes_registered", "full_reobservations", "steps:sweep-section", "steps:unified-table-growth", "steps:words", "steps:member-addition", "redeclaration_steps", "reobservations_of_artifacts_that_are_not_nodes", "sequence_objects_matched_against_their_earlier_content" }) C.need(k);
+   for (auto k : { "overlapping_lexicon_pairs", "histories", "steps", "reobservations", "shadow_reruns", "generative_results", "nodes_registered", "full_reobservations", "steps:sweep-section", "steps:unified-table-growth", "steps:words", "steps:member-addition", "redeclaration_steps", "reobservations_of_artifacts_that_are_not_nodes", "sequence_objects_matched_against_their_earlier_content", "stray_reads_between_additions", "stray_lookups_by_name_between_additions" }) C.need(k);
    C.need("string_pools", 2);
 }
 
